@@ -29,6 +29,7 @@ def run(ctx):
     tot = _storage.run_sweep(ctx, ctx.pick(18, 96), ctx.pick(120, 2000), ["process", "synced", "mid"], gen2=ctx.pick(1, 4))
     _commit.close_race(ctx)      # a commit in flight while close() flushes and retires the commit log
     _commit.flush_race(ctx)      # ... while its memtable is rotated away and flushed by someone else
+    _commit.recovery_split(ctx)  # recovery that has to split the newest segment, then more commits, then a crash
     ctx.cov["evaluations"] = tot["images"] + tot["gen2_images"]
     ctx.cov["distinct_nontrivial"] = tot["images"]
     ctx.cov["rule"] = ("one evaluation = one (workload, crash instant, crash model) image reopened by the real recovery code; "
@@ -36,7 +37,7 @@ def run(ctx):
 
 
 def replay(ctx, doc):
-    if doc["replay"].get("driver") in ("close_race", "flush_race"):
+    if doc["replay"].get("driver") in ("close_race", "flush_race", "recovery_split"):
         _commit.replay(ctx, doc["replay"])
     else:
         _storage.replay(ctx, doc["replay"])
